@@ -354,15 +354,16 @@ PROPS["C08"] = {
     ],
 }
 PROPS["C09"] = {
-    "technique": 'execution of go/ssa with map iteration order as a decision variable; data concrete',
+    "technique": 'symbolic execution of go/ssa: map iteration order as a decision variable; query texts as symbolic byte vectors with SMT verdicts',
     "level": "model_checking",
     "explanation": "models.URL.String()/URLToString/encodeQuery and net/url's query parsing run from their real SSA; Go's unspecified map iteration order is a decision variable, so the check asks whether ANY iteration order makes two URL objects "
-                   "with the same text disagree or makes the parameters change order; the accept conditions of NormalizeURL (scheme, localhost/127.0.0.1, dotless host, fragment removal, quote trimming) are exercised in C05's harnesses.",
-    "bounds": "6 query shapes (2-3 keys, repeated keys, valueless key, no query); all map iteration orders; 15 URL shapes for NormalizeURL (good, quoted, fragment, relative, scheme-relative, upper-case, ftp, localhost, 127.0.0.1 with and without port, dotless, unparsable)",
-    "outside": "idempotence, WHATWG-conformant relative resolution, IDNA and percent-encoding behaviour: properties of ada-url (C++), net/url and x/net/idna, whose parsers are not encoded",
+                   "with the same text disagree or makes the parameters change order; the query canonicaliser (encodeQuery with net/url's QueryUnescape/QueryEscape from SSA) runs on a symbolic query text: idempotence, order/multiplicity against a reference written from the statement, no panic; the accept conditions of NormalizeURL (scheme, localhost/127.0.0.1, dotless host, fragment removal, quote trimming) are exercised in C05's harnesses.",
+    "bounds": "6 query shapes (2-3 keys, repeated keys, valueless key, no query); all map iteration orders; every query text of <=5 bytes over {a 2 = & % + ;}; 15 URL shapes for NormalizeURL (good, quoted, fragment, relative, scheme-relative, upper-case, ftp, localhost, 127.0.0.1 with and without port, dotless, unparsable)",
+    "outside": "idempotence of the non-query parts, WHATWG-conformant relative resolution, IDNA and percent-encoding behaviour: properties of ada-url (C++), net/url and x/net/idna, whose parsers are not encoded",
     "assumptions": COMMON_ASSUME + ["idna.ToASCII is the identity on ASCII hosts"],
     "harnesses": [
         {"pkg": MD, "func": "VerifH_C09_query_canonical", "replay_repeat": 400, "covers": ["several-keys"]},
+        {"pkg": MD, "func": "VerifH_C09_encode_query", "opts": {"max_steps": 20000000, "unwind": 10000}, "covers": ["well-formed-query", "escapes-in-query"]},
         {"pkg": PRE, "func": "VerifH_C09_normalize", "opts": {"map_order_all": False}, "covers": ["accepted", "rejected", "relative", "fragment-stripped", "quotes-trimmed"]},
     ],
     "models": {k: v for k, v in URL_MODELS.items() if not k.endswith("models.URLToString")},
